@@ -19,6 +19,10 @@ pub struct Plan {
     pub vanish: Option<Vanish>,
     #[serde(default)]
     pub forges: Vec<Forge>,
+    /// differential mode used to attribute an outcome to forgeries: forged copies are not
+    /// delivered; originals they would have replaced are dropped
+    #[serde(default)]
+    pub forge_as_drop: bool,
 }
 
 #[derive(Clone, Debug, Serialize, Deserialize, PartialEq)]
@@ -160,8 +164,11 @@ pub enum Mutation {
 #[derive(Clone, Debug, Serialize, Deserialize, PartialEq)]
 pub struct Forge {
     pub dir: u8,
-    /// sampled genuine datagram (ordinal in its direction)
+    /// sampled genuine datagram: ordinal in its direction, or (if `kind` is set) ordinal among
+    /// the datagrams of that packet kind in that direction (0 stream, 1 control, 5 UnknownPathSecret)
     pub ord: u64,
+    #[serde(default)]
+    pub kind: Option<u8>,
     /// true: forged copy instead of the original; false: in addition to it
     pub replace: bool,
     /// delivery offset of the forged copy relative to the original in microseconds (may be
